@@ -15,18 +15,26 @@ WT=$(mktemp -d /tmp/seedchk.XXXXXX)
 trap 'git -C /repo worktree remove --force "$WT" >/dev/null 2>&1; rm -rf "$WT"' EXIT
 git -C /repo worktree add -f --detach "$WT" HEAD -q || exit 2
 
+# SEED_PHASE=confirm : only step 1 (safe to run for several seeds in parallel; prints the confirmation lines)
+# SEED_PHASE=apply   : only steps 2-3 (needs /repo for itself; expects the confirmation lines in $SEED/confirm.log)
+if [ "${SEED_PHASE:-}" = "apply" ]; then
+  cat "$SEED/confirm.log"
+  CLEAN=$(grep -oE "unchanged tree: exit [0-9]+" "$SEED/confirm.log" | grep -oE "[0-9]+$"); MUT=$(grep -oE "with the change:   exit [0-9]+" "$SEED/confirm.log" | grep -oE "[0-9]+$"); SUITE=$(grep -oE "suite with the change: exit [0-9]+" "$SEED/confirm.log" | grep -oE "[0-9]+$")
+else
 echo "== confirm in scratch worktree $WT"
 cp "$SEED/seed_demo_test.go" "$WT/" || exit 2
-( cd "$WT" && go test -vet=off -count=1 -run TestSeedDemo ./... >/tmp/seed_demo_clean.log 2>&1 ); CLEAN=$?
+( cd "$WT" && go test -vet=off -count=1 -run TestSeedDemo ./... >$WT.clean.log 2>&1 ); CLEAN=$?
 echo "demo on unchanged tree: exit $CLEAN (want 0)"
 ( cd "$WT" && git apply "$SEED/patch.diff" ) || { echo "patch does not apply"; exit 2; }
 ( cd "$WT" && go build ./... ) || { echo "does not build"; exit 2; }
-( cd "$WT" && go test -vet=off -count=1 -run TestSeedDemo ./... >/tmp/seed_demo_mut.log 2>&1 ); MUT=$?
+( cd "$WT" && go test -vet=off -count=1 -run TestSeedDemo ./... >$WT.mut.log 2>&1 ); MUT=$?
 echo "demo with the change:   exit $MUT (want non-zero)"
 mv "$WT/seed_demo_test.go" "$WT/seed_demo_test.go.off"
-( cd "$WT" && go test -vet=off -count=1 ./... >/tmp/seed_suite.log 2>&1 ); SUITE=$?
+( cd "$WT" && go test -vet=off -count=1 ./... >$WT.suite.log 2>&1 ); SUITE=$?
 echo "pinned suite with the change: exit $SUITE (want 0)"
-tail -1 /tmp/seed_suite.log
+tail -1 $WT.suite.log
+fi
+if [ "${SEED_PHASE:-}" = "confirm" ]; then exit 0; fi
 
 echo "== run the registered checks against /repo with the change applied"
 if ! git -C /repo diff --quiet; then echo "/repo has local changes, refusing"; exit 2; fi
@@ -44,4 +52,4 @@ git -C /repo checkout -- .
 # restore evidence of the unchanged tree
 if [ -z "${SEED_NO_RESTORE:-}" ]; then for p in $PROPS; do "$VERIF/check.sh" "$p" quick >/dev/null 2>&1; done; fi
 echo "== confirmed: clean=$CLEAN mutant=$MUT suite=$SUITE ; caught by:${CAUGHT:- NONE}"
-rm -f /tmp/seed_demo_clean.log /tmp/seed_demo_mut.log /tmp/seed_suite.log
+rm -f $WT.clean.log $WT.mut.log $WT.suite.log
